@@ -232,7 +232,7 @@ func c01CheckList(r *Run, l *Local, list []*uPat, public bool, extraProbes []*uP
 func TestVerif_C01(t *testing.T) {
 	r := newRun(t, "C01")
 	r.Rule("pattern lists over a universe built to collide in the radix tree (hosts sharing non-label-boundary suffixes, IPv4/IPv6, trailing dot, 253-byte hosts; 4 schemes; ports none/1/8080/65535/*; exact and *.): " +
-		"all ordered lists up to a bound (exhaustive) + PRNG lists of length 4-40 with permutations and duplications; probes = for every member the denoted origins and every near-miss class of the quantifier. " +
+		"all ordered lists up to a bound (exhaustive) + PRNG lists of length 4-40 with permutations and duplications + PRNG lists with `*` at every position (public API); probes = for every member the denoted origins and every near-miss class of the quantifier. " +
 		"evaluation = one (list, origin) verdict compared with the denotation oracle; non-trivial = verdicts on origins sharing scheme and a host suffix byte with a listed pattern, counted per distinct (list, origin) for enumerated lists (distinct by construction) and once per distinct list (by hash) for sampled lists")
 	r.Assume("oracle S1 (denotes) transcribes the statement of C01; universe patterns are valid by construction (their acceptance is C13's business)")
 
@@ -378,6 +378,55 @@ func TestVerif_C01(t *testing.T) {
 					perm = append(perm, perm[rng.IntN(len(perm))])
 				}
 				c01CheckList(r, l, perm, false, extra, false)
+			}
+		}
+	})
+	// --- lists that contain `*` (public API only: the tree never sees `*`): every origin is allowed,
+	// wherever `*` stands in the list and whatever else is listed
+	starLists := pick(r, 400, 20000)
+	r.Parallel(pick(r, 16, 256), func(l *Local) {
+		rng := l.Rng
+		for i := 0; i < starLists/pick(r, 16, 256); i++ {
+			n := 1 + rng.IntN(5)
+			strs := make([]string, 0, n+2)
+			var members []*uPat
+			for j := 0; j < n; j++ {
+				p := choose(rng, U)
+				members = append(members, p)
+				strs = append(strs, p.str)
+			}
+			for k := 1 + rng.IntN(2); k > 0; k-- {
+				pos := rng.IntN(len(strs) + 1)
+				strs = append(strs[:pos], append([]string{"*"}, strs[pos:]...)...)
+			}
+			if i%5 == 0 {
+				strs = []string{"*"}
+			}
+			l.curA = strs
+			mw, err := cors.NewMiddleware(cors.Config{Origins: append([]string(nil), strs...), ExtraConfig: cors.ExtraConfig{DangerouslyTolerateSubdomainsOfPublicSuffixes: true}})
+			if err != nil {
+				r.Violate("valid-list-rejected", "S1-vs-NewMiddleware", fmt.Sprintf("patterns %q rejected: %v", strs, err), c01Case{strs, "", true})
+				continue
+			}
+			probes := []string{"https://unlisted.example.org", "http://unlisted.example.org:8081", "https://example.com"}
+			for _, m := range members {
+				for k := 0; k < len(m.probes); k += 1 + len(m.probes)/12 {
+					probes = append(probes, m.probes[k].str)
+				}
+			}
+			for _, o := range probes {
+				for _, q := range []Req{actualReq("GET", o), preflightReq(o, "GET", nil, false)} {
+					obs := serve(mw, q)
+					l.evals++
+					l.n1++
+					if v, ok := obs.first(hACAO); !ok || (v != "*" && v != o) {
+						r.Violate("star-list-refuses", "S1-vs-GET", fmt.Sprintf("patterns=%q (contains `*`) Origin=%q: response %s", strs, o, obs), c01Case{strs, o, true})
+					}
+				}
+			}
+			l.NontrivialKey(strs...)
+			if l.Batch == 0 && i == 1 {
+				l.Sample("star-list", c01Case{strs, probes[0], true})
 			}
 		}
 	})
